@@ -59,7 +59,19 @@ RULE = ("seeded generator over classes {reorder (G = F permuted), near (G = F + 
         "pair (2.3 s at 515 points); quick: 2 xs, 1 s, 1 m (reordering), 1 l; thorough: 24 xs, 10 s, 8 m, 6 l, 1 xl, "
         "1 at 513-552 as second argument. `layout`: the same small diagrams handed over as nested lists, tuples, "
         "Fortran-ordered arrays, a strided view of a larger buffer, read-only arrays or (integer coordinates) an "
-        "int64 array, half of them with the array objects shared by all calls of the case (quick 4, thorough 60)")
+        "int64 array, half of them with the array objects shared by all calls of the case (quick 4, thorough 60). "
+        "Added in round 2 -- `repair` (look-alike diagrams): G has as many points as F and is NOT a reordering of it (distance "
+        "far above the tolerance) but shares the summaries a shortcut / fingerprint / cache key for 'same diagram' may use: "
+        "`deaths` same multiset of births and same multiset of deaths, paired differently (nested {(0,3),(1,2)} against "
+        "overlapping {(0,2),(1,3)} bars); `flat` the same 2n coordinate values paired nested / overlapping / consecutively; "
+        "`rot` same lifetimes and same births / midpoints / deaths, re-paired; `sums` equal column sums (one point moved by +v, another by -v); "
+        "`gridrand` two independent equal-size diagrams from a 4 x 3 grid; coordinates on an integer / half / quarter grid "
+        "(60 %, every coincidence bit-exact) or random doubles, common scale in {1, 1/4, 10} and offset in {0, -3, 100}, rows "
+        "of G shuffled half of the time, H = F with one death moved, sigma as in the ordinary cases or (half of the cases) "
+        "kernel width sqrt(8 sigma) = 1, 2, 4 point spacings, every relation of the ordinary cases evaluated; 2-5 "
+        "points (certified), thorough and search also 6-12 points (predicate only); quick: deaths on the grid, deaths in "
+        "doubles, flat, one of sums/gridrand, rot on the grid with each of the three anchors; thorough: 96. `layout` additionally as nested lists of Python ints "
+        "(`intlist`); the quick tier always contains one integer-typed layout case (int64 array or int lists)")
 TRUSTED_BASE = [
     "harness/src2coq.py (heat_regen): its reading of heat.py (2-vectors as pairs, x ** 2 as x * x, the loop nest pinned by shape) "
     "for the 3 regenerated obligations regen_kterm, regen_knorm, regen_heat (proved by Corr/RegenTac.v)",
@@ -280,16 +292,17 @@ def _size_case(rng, band, kind=None, twice=False):
     return c
 
 
-CONTAINERS = ["list", "tuple", "fortran", "strided", "readonly", "int"]
+CONTAINERS = ["list", "tuple", "fortran", "strided", "readonly", "int", "intlist"]
+INT_CONTAINERS = ("int", "intlist")
 
 
-def _layout_case(rng):
+def _layout_case(rng, cont=None):
     """The diagrams handed over as nested lists / tuples, Fortran-ordered, as a strided view of a larger buffer,
-    as read-only arrays, or (integer coordinates) as an int64 array; half of the cases also share the array
-    objects between all calls of the case."""
+    as read-only arrays, or (integer coordinates) as an int64 array / nested lists of Python ints; half of the
+    cases also share the array objects between all calls of the case."""
     c = _case(rng, rng.choice(["generic", "reorder", "diag", "neg", "multi"]))
-    cont = rng.choice(CONTAINERS)
-    if cont == "int":
+    cont = cont or rng.choice(CONTAINERS)
+    if cont in INT_CONTAINERS:
         ip = lambda: [(b := float(rng.randint(-3, 6))), b + rng.randint(1, 4)]
         c["F"] = [ip() for _ in range(rng.randint(2, 5))]
         c["G"] = [ip() for _ in range(rng.randint(1, 5))]
@@ -301,12 +314,130 @@ def _layout_case(rng):
     return c
 
 
+REPAIR_VARIANTS = ["deaths", "deaths", "flat", "rot", "sums", "gridrand"]
+
+
+def _repair_case(rng, variant=None, grid=None, n=None, anchor=None):
+    """LOOK-ALIKE diagrams: G is NOT a reordering of F (the distance is far above the tolerance) but agrees with F in
+    the summaries a shortcut / fingerprint / cache key for "same diagram" is tempted to use.  Variants:
+      deaths   same number of points, same multiset of births, same multiset of deaths, different pairing
+               (nested bars {(0,3),(1,2)} against overlapping bars {(0,2),(1,3)});
+      flat     the same multiset of all 2n coordinates paired up in two of the three ways nested / overlapping /
+               consecutive;
+      rot      same multiset of lifetimes and same multiset of anchors (births, midpoints or deaths, case["anchor"]),
+               re-paired: the look-alike in (birth, lifetime) / (midpoint, lifetime) / (death, lifetime) coordinates;
+      sums     same number of points and same column sums (one point moved by +v, another by -v);
+      gridrand two independent diagrams of equal size from a 4 x 3 grid (many shared births / deaths / whole points).
+    grid: coordinates on an integer / half / quarter grid (typical of integer-valued filtrations, every coincidence
+    is bit-exact) or random doubles (coincidences are exact where values are copied, approximate where computed).
+    The rows of G are shuffled half of the time; H is F with one death moved (a triangle through the look-alike)."""
+    c = _case(rng, "generic")
+    variant = variant or rng.choice(REPAIR_VARIANTS)
+    grid = (rng.random() < 0.6) if grid is None else grid
+    n = n or rng.randint(2, 5)
+    step = rng.choice([1.0, 1.0, 0.5, 0.25]) if grid else rng.choice([1.0, 0.5, 0.3])
+
+    def vals(k):    # k distinct increasing values, neighbours about one step apart
+        if grid:
+            return [step * i for i in sorted(rng.sample(range(0, 2 * k + 2), k))]
+        v, out = 0.0, []
+        for _ in range(k):
+            v += step * rng.uniform(0.2, 1.6)
+            out.append(v)
+        return out
+
+    def nested(v):
+        return [[v[i], v[len(v) - 1 - i]] for i in range(len(v) // 2)]
+
+    def overlap(v):
+        return [[v[i], v[i + len(v) // 2]] for i in range(len(v) // 2)]
+
+    def consec(v):
+        return [[v[2 * i], v[2 * i + 1]] for i in range(len(v) // 2)]
+
+    def rnd(k):     # k points, coordinates may coincide between points (grid) / generic (doubles)
+        if grid:
+            return [[(b := step * rng.randint(0, 3)), b + step * rng.randint(1, 3)] for _ in range(k)]
+        return [[(b := rng.uniform(0, 3 * step)), b + rng.uniform(0.3, 3) * step] for _ in range(k)]
+
+    key = lambda X: sorted(map(tuple, X))
+    F = G = None
+    if variant == "deaths":
+        # general position first: any valid re-pairing of a random diagram; else all deaths above all births
+        F0 = rnd(n)
+        for _ in range(20):
+            pi = list(range(n))
+            rng.shuffle(pi)
+            G0 = [[F0[i][0], F0[pi[i]][1]] for i in range(n)]
+            if all(b < d for b, d in G0) and key(G0) != key(F0):
+                F, G = F0, G0
+                break
+        if F is None or rng.random() < 0.4:
+            v = vals(2 * n)
+            bs, ds, ds2 = v[:n], v[n:], v[n:]
+            rng.shuffle(bs)
+            rng.shuffle(ds)
+            while ds2 == ds:
+                ds2 = ds[:]
+                rng.shuffle(ds2)
+            F, G = [[b, d] for b, d in zip(bs, ds)], [[b, d] for b, d in zip(bs, ds2)]
+    elif variant == "flat":
+        v = vals(2 * n)
+        f, g = rng.sample([nested, overlap, consec], 2)
+        F, G = f(v), g(v)
+    elif variant == "rot":
+        ms = [2 * x for x in vals(n)]
+        ls = [x + step for x in vals(n)]              # distinct lifetimes (exact halves on the grid)
+        rng.shuffle(ms)
+        ls2 = ls[:]
+        while ls2 == ls:
+            rng.shuffle(ls2)
+        anchor = anchor or rng.choice(["birth", "mid", "death"])
+        lo = {"birth": 0.0, "mid": 0.5, "death": 1.0}[anchor]
+        F = [[m - l * lo, m + l * (1 - lo)] for m, l in zip(ms, ls)]
+        G = [[m - l * lo, m + l * (1 - lo)] for m, l in zip(ms, ls2)]
+        c["anchor"] = anchor
+    elif variant == "sums":
+        F = rnd(n)
+        i, j = rng.sample(range(n), 2)
+        G = [list(p) for p in F]
+        if rng.random() < 0.5:      # along the diagonal: both lifetimes kept
+            t = step * rng.choice([1, 2, 0.5])
+            G[i], G[j] = [F[i][0] + t, F[i][1] + t], [F[j][0] - t, F[j][1] - t]
+        else:                       # deaths only: one bar longer, another shorter by the same amount
+            t = (F[j][1] - F[j][0]) / 2
+            G[i], G[j] = [F[i][0], F[i][1] + t], [F[j][0], F[j][1] - t]
+    else:
+        F, G = rnd(n), rnd(n)
+    if key(F) == key(G):            # (sums with identical points, gridrand by chance): the classic pair instead
+        v = vals(2 * n)
+        F, G, variant = nested(v), overlap(v), "flat"
+    # common affine change of coordinates (exact on the grid for the dyadic factors)
+    a, t0 = rng.choice([1.0, 1.0, 1.0, 0.25, 10.0]), rng.choice([0.0, 0.0, -3.0, 100.0])
+    F, G = ([[a * b + t0, a * d + t0] for b, d in X] for X in (F, G))
+    G = [list(p) for p in G]
+    if rng.random() < 0.5:
+        rng.shuffle(G)
+    H = [list(p) for p in F]
+    j = rng.randrange(n)
+    H[j][1] += a * step * rng.choice([0.5, 0.25, 1.0])
+    perm = list(range(n))
+    rng.shuffle(perm)
+    c.update(cls="repair", variant=variant, F=F, G=G, H=H, perm=perm)
+    if rng.random() < 0.5:
+        # kernel width sqrt(8 sigma) = 1, 2 or 4 spacings of the points: the kernels of neighbouring points overlap, so
+        # k(F,F), k(G,G) and k(F,G) all differ (far-apart points give n / (8 pi sigma) whatever the pairing)
+        c["sigma"] = (a * step) ** 2 * rng.choice([0.125, 0.5, 2.0])
+    return c
+
+
 CLASSES = ["reorder", "near", "diag", "neg", "generic", "scale", "empty", "single",
            "far", "far", "tinymove", "chain", "smallscale", "bigsigma", "reorder", "far", "intsigma", "sweep", "wide", "wide", "multi", "multi"]
 
 
 def _extra(rng, tier):
-    """Container / layout cases and the size ladder (RULE).  quick: 4 layout cases, two diagrams at 17-72 points, one
+    """Container / layout cases, look-alike diagrams and the size ladder (RULE).  quick: 4 layout cases (one of them
+    integer-typed), 7 look-alike cases, two diagrams at 17-72 points, one
     at 101-140 (all relations), one reordering at 257-275 and one diagram at 513-530 points (formula and symmetry)."""
     if tier == "quick":
         plan = [("xs", None), ("xs", rng.choice(["both", "reorder"])), ("s", None), ("m", "reorder"),
@@ -316,7 +447,17 @@ def _extra(rng, tier):
         plan = ([("xs", None)] * 24 + [("s", None)] * 10 + [("m", None)] * 8 + [("l", "Fbig"), ("l", "Gbig")] * 2
                 + [("l", "both"), ("l", "reorder"), ("xl", "Fbig")])
         n_layout = 60
-    cs = [_layout_case(rng) for _ in range(n_layout)] + [_size_case(rng, b, k) for b, k in plan]
+    if tier == "quick":
+        # one integer-typed container in every run, the other three at random
+        cs = [_layout_case(rng, rng.choice(INT_CONTAINERS))] + [_layout_case(rng) for _ in range(n_layout - 1)]
+        # look-alike diagrams: the classic re-pairing on a grid and in doubles, the coordinate multiset, lifetimes, one other
+        cs += [_repair_case(rng, "deaths", grid=True), _repair_case(rng, "deaths", grid=False),
+               _repair_case(rng, "flat"), _repair_case(rng, rng.choice(["sums", "gridrand"]))]
+        cs += [_repair_case(rng, "rot", grid=True, anchor=a) for a in ("birth", "mid", "death")]
+    else:
+        cs = [_layout_case(rng) for _ in range(n_layout)]
+        cs += [_repair_case(rng, n=(rng.randint(6, 12) if i % 4 == 0 else None)) for i in range(96)]
+    cs += [_size_case(rng, b, k) for b, k in plan]
     if tier != "quick":
         cs.append(_size_case(rng, "m", "Gbig", twice=True))     # 2 * 256 + r: two full blocks and a partial one
     return cs
@@ -353,6 +494,7 @@ def corpus():
 
 def search_generate(rng, n):
     cs = [_case(rng, CLASSES[i % len(CLASSES)]) for i in range(n)]
+    cs += [_repair_case(rng, n=(rng.randint(6, 12) if i % 5 == 4 else None)) for i in range(max(2, n // 10))]
     return cs + [_layout_case(rng) for _ in range(max(1, n // 20))] + [
         _size_case(rng, b, k) for b, k in [("xs", None)] * max(1, n // 50) + [("s", None), ("m", None), ("l", None)]]
 
@@ -396,6 +538,8 @@ def impl_run(cases):
             return a
         if cont == "int":                # integer-valued coordinates handed over as an integer array
             return a.astype(np.int64) if all(float(x) == int(x) for p in X for x in p) else a
+        if cont == "intlist":            # ... or as nested lists of Python ints (np.array of it is an integer array)
+            return [[int(x) for x in p] for p in X] if all(float(x) == int(x) for p in X for x in p) else a
         raise ValueError("unknown container %r" % (cont,))
 
     def f(x):
@@ -701,6 +845,15 @@ def shrink_candidates(c):
                 if key == "F":
                     d["perm"] = list(range(len(d["F"])))[::-1]
                 yield d
+    if 3 <= len(c["F"]) == len(c["G"]) <= 16:
+        # equal sizes may be what matters (look-alike diagrams): drop one point of each, identical points first
+        F, G = c["F"], c["G"]
+        ij = [(i, j) for i in range(len(F)) for j in range(len(G))]
+        for i, j in sorted(ij, key=lambda t: list(F[t[0]]) != list(G[t[1]])):
+            d = dict(c)
+            d["F"], d["G"] = F[:i] + F[i + 1:], G[:j] + G[j + 1:]
+            d["perm"] = list(range(len(d["F"])))[::-1]
+            yield d
     if c.get("shared"):
         d = dict(c); d["shared"] = False; yield d
     if c.get("cont", "array") != "array":
